@@ -157,9 +157,12 @@ fn s_maps(t: &mut Tape, ctx: &mut Ctx) -> Result<(), Failure> {
         }
         // names sorted
         let printed_names: Vec<&str> = text1.lines().filter_map(|l| l.trim().strip_prefix("const ")).filter_map(|l| l.split(':').next()).collect();
+        // "sorted": byte order, or a case-insensitive order with byte order as tie-break
         let mut sorted = printed_names.clone();
         sorted.sort();
-        if printed_names != sorted || printed_names.len() != items.len() {
+        let mut sorted_ci = printed_names.clone();
+        sorted_ci.sort_by(|a, b| a.to_lowercase().cmp(&b.to_lowercase()).then(a.cmp(b)));
+        if (printed_names != sorted && printed_names != sorted_ci) || printed_names.len() != items.len() {
             return Err(Failure::new("c15:module-names-not-sorted", format!("names are not listed once each in sorted order:\n{text1}")).with(detail.clone()));
         }
     }
@@ -172,7 +175,35 @@ fn s_maps(t: &mut Tape, ctx: &mut Ctx) -> Result<(), Failure> {
             let i = t.index(shuffled.len());
             shuffled.swap(0, i);
         }
-        let text = render::module_text("witness", &shuffled, &style);
+        // values wrapped in redundant parentheses at random places (constants are expressions)
+        let mut bits = t.next();
+        let paren_items: Vec<(String, Val, Ty)> = shuffled.clone();
+        let text = {
+            let mut w = render::Writer::new(style.clone());
+            w.t("mod");
+            w.must_space();
+            w.t("witness");
+            w.t("{");
+            for (n, v, ty) in &paren_items {
+                w.nl();
+                w.t("const");
+                w.must_space();
+                w.t(n);
+                w.g(":");
+                w.ty(ty);
+                w.t("=");
+                let mut e = render::val_to_expr(v, ty, style.byte_arrays_as_hex);
+                crate::rename::wrap_expr(&mut e, &mut || {
+                    bits = bits.rotate_left(3).wrapping_mul(2654435761).wrapping_add(12345);
+                    bits % 5 == 0
+                });
+                w.expr(&e, Some(ty));
+                w.g(";");
+            }
+            w.nl();
+            w.t("}");
+            w.out
+        };
         let expect = WitnessValues::from(build(&fwd));
         match catch(|| WitnessValues::parse_from_str(&text).map_err(|e| e.to_string())).map_err(|p| pfail("WitnessValues::parse_from_str", &p, &text))? {
             Ok(m) if m == expect => {}
